@@ -174,6 +174,9 @@ class CollectionAttrMutator(metaclass=ABCMeta):
             self.add_items(items)
             return self
         if self.collection and self.prepare_item:
+            # `_prepare_items` edits the collection in place, and at this point
+            # it may still be the caller's own object.
+            self.collection = protect_via_deepcopy(self.collection)
             self._prepare_items()
         return self
 
